@@ -375,7 +375,10 @@ def run(tier, seed):
     for p in ps:
         for key in p.sensors:
             tasks.append((task_regimes, (p, True, key, tier, seed)))
-    for d in pmap(_dispatch, tasks):
+    from .common import pmap_staged
+
+    first = [t for t in tasks if t[0] is task_regimes]
+    for d in pmap_staged(_dispatch, first, [t for t in tasks if t[0] is not task_regimes]):
         rep.merge(d)
     rep.bounds = {"programs": [p.id for p in ps], "readings_per_sensor": "1..3", "inputs": "all real states/readings/calibration, all symmetric P (witnesses: diagonally dominant P), all noise > 0; accept path of the innovation filter when k is set", "inverse": "shared cut-point: fresh symbols for S^-1, argument proved equal to S", "posterior<=prior": "direct nlsat proof for m = 1 sensors only; m >= 2 via the guided chain in C09"}
     rep.assumptions = ["reals for doubles", "validity gates assumed to pass", "np.linalg.inv is a function of its argument (cut-point)"]
